@@ -14,7 +14,10 @@
 (*  * the BODY the server answers with is a call dimension: a JSON object  *)
 (*    that fits the declared schema (also very long, also without content *)
 (*    type), a JSON array, a JSON string, JSON null, an empty body,        *)
-(*    whitespace, an HTML page, bytes that are not UTF-8 (Bodies);         *)
+(*    whitespace, an HTML page, bytes that are not UTF-8 (Bodies); so are  *)
+(*    the HEADERS of the answer (HeaderSets: Retry-After, Content-Type     *)
+(*    variants, WWW-Authenticate, Location, repeated / very long / non-    *)
+(*    ASCII header values) - no outcome function depends on them;          *)
 (*  * the way the document writes the responses down (Modes: inline, by    *)
 (*    reference to components/responses, one shared component for several  *)
 (*    status codes and operations) is a rendering dimension: no outcome    *)
@@ -137,6 +140,16 @@ AltFirst(d) ==
 Firsts(d, allOrders) == IF allOrders THEN d ELSE IF ~HasSuccess(d) THEN {CanonFirst(d), AltFirst(d)} ELSE {CanonFirst(d)}
 Scenarios(members, max, allOrders) ==
   UNION {{[d |-> d, first |-> f] : f \in Firsts(d, allOrders)} : d \in DeclSets(members, max)}
+
+\* the HEADERS of the server's answer are the third dimension of "whatever the server answers" (after status and body).
+\* No outcome function below takes them: the property demands the same status-carrying, class-correct error whatever
+\* they are; the replay rotates this alphabet over the served responses (one header set per call):
+\*   "none"; Retry-After as delta-seconds / HTTP-date / garbage / negative / sent twice; Content-Type with a charset /
+\*   with an unknown charset / in upper case / missing; WWW-Authenticate; Location; a header sent twice (Set-Cookie); an
+\*   8 kB header value; a non-ASCII (latin-1) header value
+HeaderSets == {"none", "retry_seconds", "retry_date", "retry_garbage", "retry_negative", "retry_twice", "ctype_charset",
+               "ctype_unknown_charset", "ctype_upper", "ctype_missing", "www_authenticate", "location", "duplicate",
+               "long_value", "latin1"}
 
 \* HOW the document writes the responses down is a rendering dimension the outcome must not depend on (none of the
 \* outcome functions below takes it): "inline" = every response object in place; "ref" = every response is a `$ref` to
@@ -265,17 +278,18 @@ Holds(s, o) ==
      /\ (Is4xx(s) => IsClientError(o))
      /\ (Is5xx(s) => IsServerError(o))
 
-\* exc / body are part of the locus only where they matter (an exception that is not an HTTPError): "" otherwise
-Locus(d, t, s, exc, body) == [transport |-> t, status_class |-> ClassName(s), coverage |-> Coverage(d, s), exc |-> exc, body |-> body]
-F(c, d, t, s, exc, body)  == [clause |-> c, locus |-> Locus(d, t, s, exc, body)]
+\* exc / body / hdr (the header set of the answer) are part of the locus only where they matter (an exception that is
+\* not an HTTPError): "" otherwise
+Locus(d, t, s, exc, body, hdr) == [transport |-> t, status_class |-> ClassName(s), coverage |-> Coverage(d, s), exc |-> exc, body |-> body, hdr |-> hdr]
+F(c, d, t, s, exc, body, hdr)  == [clause |-> c, locus |-> Locus(d, t, s, exc, body, hdr)]
 
 \* every failing clause of one call; an outcome that is not an HTTPError has no status / response / class to judge
-Failures(d, t, s, b, o) ==
+Failures(d, t, s, b, h, o) ==
   IF Is2xx(s) \/ o.kind = "unimportable" THEN {}
-  ELSE IF o.kind # "raise" THEN {F("C06.returned", d, t, s, "", "")}
-  ELSE IF ~IsHTTPError(o) THEN {F("C06.not_http_error", d, t, s, o.exc, b)}
-  ELSE (IF o.status # s THEN {F("C06.status_attr", d, t, s, "", "")} ELSE {})
-       \cup (IF ~o.hasResponse THEN {F("C06.response_attr", d, t, s, "", "")} ELSE {})
-       \cup (IF Is4xx(s) /\ ~IsClientError(o) THEN {F("C06.not_client_error", d, t, s, "", "")} ELSE {})
-       \cup (IF Is5xx(s) /\ ~IsServerError(o) THEN {F("C06.not_server_error", d, t, s, "", "")} ELSE {})
+  ELSE IF o.kind # "raise" THEN {F("C06.returned", d, t, s, "", "", "")}
+  ELSE IF ~IsHTTPError(o) THEN {F("C06.not_http_error", d, t, s, o.exc, b, h)}
+  ELSE (IF o.status # s THEN {F("C06.status_attr", d, t, s, "", "", "")} ELSE {})
+       \cup (IF ~o.hasResponse THEN {F("C06.response_attr", d, t, s, "", "", "")} ELSE {})
+       \cup (IF Is4xx(s) /\ ~IsClientError(o) THEN {F("C06.not_client_error", d, t, s, "", "", "")} ELSE {})
+       \cup (IF Is5xx(s) /\ ~IsServerError(o) THEN {F("C06.not_server_error", d, t, s, "", "", "")} ELSE {})
 =============================================================================
